@@ -4,6 +4,7 @@ import (
 	"crypto/sha256"
 	"encoding/json"
 	"flag"
+	"go/types"
 	"fmt"
 	"os"
 	"path/filepath"
@@ -94,15 +95,31 @@ func cmdCheck(args []string) int {
 	_ = os.RemoveAll(outDir)
 	_ = os.MkdirAll(filepath.Join(outDir, "replay"), 0o755)
 
+	contractSync := checkContractMirror(*vdir, *root)
+
+	P, err := loadProgram(*root, cfg.Packages)
+	if err != nil {
+		return engineFailure(id, outDir, "loading /repo packages failed (does the tree compile?): "+err.Error())
+	}
+	tLoad := time.Since(t0).Seconds()
 	S := newSpecs()
+	S.TypeResolver = func(name string) (Sort, error) {
+		ex := &Exec{P: P}
+		t := ex.resolveType(name)
+		if t == nil {
+			return "", fmt.Errorf("gosort: unknown type %q", name)
+		}
+		if _, ok := t.Underlying().(*types.Struct); !ok {
+			return "", fmt.Errorf("gosort: %q is not a struct type", name)
+		}
+		return Sort(structSortName(t)), nil
+	}
 	if err := S.loadDir(filepath.Join(*vdir, "specs"), ".spec"); err != nil {
 		return engineFailure(id, outDir, "spec files: "+err.Error())
 	}
 	if err := S.loadDir(filepath.Join(*vdir, "contracts"), ".go"); err != nil {
 		return engineFailure(id, outDir, "contract files: "+err.Error())
 	}
-	contractSync := checkContractMirror(*vdir, *root)
-
 	// contracts of this property
 	var keys []string
 	for _, k := range S.Order {
@@ -116,11 +133,6 @@ func cmdCheck(args []string) int {
 			}
 		}
 	}
-	P, err := loadProgram(*root, cfg.Packages)
-	if err != nil {
-		return engineFailure(id, outDir, "loading /repo packages failed (does the tree compile?): "+err.Error())
-	}
-	tLoad := time.Since(t0).Seconds()
 
 	type work struct {
 		fn    *ssa.Function
